@@ -202,8 +202,8 @@ def _standin(rep, tier, seed):
                 if R.values.shape != want.shape or not np.allclose(R.values, want, atol=1e-12):
                     rep.violation("grid landscape %s gives %s, pointwise operation with zero padding gives %s" % (name, R.values.tolist(), want.tolist()),
                                   "grid-op:%s:%s" % (name, "depths-differ" if ka != kb else "same-depths"), {"input": {"a": va.tolist(), "b": vb.tolist(), "scalar": s, "op": name}})
-                if not (np.array_equal(A.values, va) and np.array_equal(B.values, vb)) or (R.values is A.values or R.values is B.values):
-                    rep.violation("grid landscape %s changed (or aliases) an operand" % name, "grid-op:operand-mutated", {"input": {"a": va.tolist(), "b": vb.tolist(), "op": name}})
+                if not (np.array_equal(A.values, va) and np.array_equal(B.values, vb)):
+                    rep.violation("grid landscape %s changed an operand" % name, "grid-op:operand-mutated", {"input": {"a": va.tolist(), "b": vb.tolist(), "op": name}})
                     A = PersLandscapeApprox(start=0.0, stop=4.0, num_steps=ns, values=va.copy(), hom_deg=0)
                     B = PersLandscapeApprox(start=0.0, stop=4.0, num_steps=ns, values=vb.astype(float).copy(), hom_deg=0)
             # rejections
@@ -216,27 +216,82 @@ def _standin(rep, tier, seed):
                     rep.violation("adding grid landscapes with different %s was not rejected" % what, "grid-op:no-rejection", {"input": {"what": what}})
                 except ValueError:
                     pass
-            # snap to a common grid = linear interpolation of every depth; linear combination / average
-            W = PersLandscapeApprox(start=1.0, stop=3.0, num_steps=3, values=np.array([[0.0, 2.0, 0.0]]), hom_deg=0)
-            sn = snap_pl([A, W], start=0.0, stop=4.0, num_steps=9)
-            grid = np.linspace(0.0, 4.0, 9)
-            evals += 1
-            for L, S in zip((A, W), sn):
-                want = np.array([np.interp(grid, np.linspace(L.start, L.stop, L.num_steps), row) for row in L.values])
-                if not np.allclose(S.values, want, atol=1e-12) or (S.start, S.stop, S.num_steps) != (0.0, 4.0, 9):
-                    rep.violation("snap_pl is not linear interpolation of every depth onto the common grid", "snap:interp", {"input": {"values": L.values.tolist()}})
-            c = [rng.choice([1.0, -2.0, 0.5]), rng.choice([1.0, 3.0])]
-            lc = lc_approx([A, W], c, start=0.0, stop=4.0, num_steps=9)
-            av = average_approx([A, W], start=0.0, stop=4.0, num_steps=9)
-            k2 = max(sn[0].values.shape[0], sn[1].values.shape[0])
-            p9 = lambda v: np.vstack([v, np.zeros((k2 - v.shape[0], 9))]) if v.shape[0] < k2 else v
-            evals += 2
-            if not np.allclose(lc.values, c[0] * p9(sn[0].values) + c[1] * p9(sn[1].values), atol=1e-12):
-                rep.violation("lc_approx differs from the same combination of the re-sampled values", "snap:lc", {"input": {"coeffs": c}})
-            if not np.allclose(av.values, 0.5 * p9(sn[0].values) + 0.5 * p9(sn[1].values), atol=1e-12):
-                rep.violation("average_approx differs from the mean of the re-sampled values", "snap:avg", {"input": {}})
+            # snap to a common grid = linear interpolation of every depth; linear combination / average.
+            # Landscapes on their own grids (some already on the requested one); every grid parameter independently left out or
+            # given explicitly - zero, negative and integer values included, and values different from what would be derived.
+            def lin(x, a0, b0, m0, row):
+                if m0 == 1 or b0 == a0:
+                    return float(row[0])
+                if x <= a0:
+                    return float(row[0])
+                if x >= b0:
+                    return float(row[-1])
+                h = (b0 - a0) / (m0 - 1)
+                j = min(int((x - a0) / h), m0 - 2)
+                return float(row[j] + (x - (a0 + j * h)) * (row[j + 1] - row[j]) / h)
+            for _rep in range(4):
+                nl = rng.randint(2, 3)
+                Ls, snaps0 = [], []
+                for _i in range(nl):
+                    a0 = rng.choice([-3.0, -1.0, 0.0, 1.0, 2.0])
+                    b0 = a0 + rng.choice([2.0, 3.0, 4.0])
+                    m0 = rng.choice([3, 5, 9])
+                    dd = rng.randint(1, 3)
+                    vv = np.array([[float(rng.randint(0, 4)) for _j in range(m0)] for _d in range(dd)])
+                    Ls.append(PersLandscapeApprox(start=a0, stop=b0, num_steps=m0, values=vv.copy(), hom_deg=0))
+                    snaps0.append((a0, b0, m0, vv.copy()))
+                kw = {}
+                if rng.random() < 0.6:
+                    kw["start"] = rng.choice([0, 0.0, -3.0, -4.0, 1.0, 0.5])
+                if rng.random() < 0.6:
+                    kw["stop"] = rng.choice([0, 0.0, 3.0, 6.0, 7.5])
+                if rng.random() < 0.6:
+                    kw["num_steps"] = rng.choice([3, 5, 7, 9])
+                if rng.random() < 0.3:      # every landscape already on the requested grid
+                    a0, b0, m0, _v = snaps0[0]
+                    Ls = [PersLandscapeApprox(start=a0, stop=b0, num_steps=m0, values=np.array([[float(rng.randint(0, 4)) for _j in range(m0)] for _d in range(rng.randint(1, 2))]), hom_deg=0) for _i in range(nl)]
+                    snaps0 = [(L.start, L.stop, L.num_steps, L.values.copy()) for L in Ls]
+                    kw = {} if rng.random() < 0.5 else {"start": a0, "stop": b0, "num_steps": m0}
+                g0 = kw.get("start", min(x[0] for x in snaps0))
+                g1 = kw.get("stop", max(x[1] for x in snaps0))
+                gm = kw.get("num_steps", max(x[2] for x in snaps0))
+                if not g0 < g1:
+                    continue
+                grid = [g0 + i * (g1 - g0) / (gm - 1) for i in range(gm)]
+                desc = {"landscapes": [{"start": x[0], "stop": x[1], "num_steps": x[2], "values": x[3].tolist()} for x in snaps0], "grid_arguments": {k: repr(v) for k, v in kw.items()}}
+                try:
+                    sn = snap_pl(list(Ls), **kw)
+                    coef = [rng.choice([1.0, -2.0, 0.5, 3.0]) for _i in range(nl)]
+                    lc = lc_approx(list(Ls), list(coef), **kw)
+                    av = average_approx(list(Ls), **kw)
+                    lc_again = lc_approx(list(Ls), list(coef), **kw)
+                except Exception as ex:
+                    rep.violation("snap_pl / lc_approx / average_approx raised %r on %s" % (ex, desc), "snap:exception", {"input": desc})
+                    continue
+                evals += 4
+                distinct.add(("snap", nl, tuple(sorted(kw))))
+                wants = []
+                for (a0, b0, m0, vv), S in zip(snaps0, sn):
+                    want = np.array([[lin(x, a0, b0, m0, row) for x in grid] for row in vv])
+                    wants.append(want)
+                    if (S.start, S.stop, S.num_steps) != (g0, g1, gm) or S.values.shape != want.shape or not np.allclose(S.values, want, atol=1e-9):
+                        rep.violation("snap_pl with grid arguments %s: result on grid (%r, %r, %r) with values %s; linear interpolation of every depth onto (%r, %r, %r) gives %s"
+                                      % (kw, S.start, S.stop, S.num_steps, np.asarray(S.values).tolist(), g0, g1, gm, want.tolist()), "snap:interp", {"input": desc})
+                        break
+                k2 = max(w.shape[0] for w in wants)
+                padw = lambda v: np.vstack([v, np.zeros((k2 - v.shape[0], gm))]) if v.shape[0] < k2 else v
+                if not (lc.values.shape == (k2, gm) and np.allclose(lc.values, sum(c * padw(w) for c, w in zip(coef, wants)), atol=1e-9) and (lc.start, lc.stop, lc.num_steps) == (g0, g1, gm)):
+                    rep.violation("lc_approx differs from the same combination of the re-sampled values (coefficients %s, %s)" % (coef, desc), "snap:lc", {"input": dict(desc, coeffs=coef)})
+                if not (av.values.shape == (k2, gm) and np.allclose(av.values, sum(padw(w) for w in wants) / nl, atol=1e-9)):
+                    rep.violation("average_approx differs from the mean of the re-sampled values (%s)" % desc, "snap:avg", {"input": desc})
+                if not np.array_equal(lc.values, lc_again.values):
+                    rep.violation("lc_approx repeated on the same landscapes gives a different result (%s)" % desc, "snap:not-repeatable", {"input": dict(desc, coeffs=coef)})
+                for L, (a0, b0, m0, vv) in zip(Ls, snaps0):
+                    if (L.start, L.stop, L.num_steps) != (a0, b0, m0) or not np.array_equal(L.values, vv):
+                        rep.violation("snap_pl / lc_approx / average_approx changed a landscape passed to it (%s)" % desc, "snap:operand-mutated", {"input": desc})
+                        break
     rep.bounded("landscape arithmetic (run time)", "%d random pairs of piecewise-linear functions (lattice and real abscissae, coincidences); operator sequences on shared exact / grid operands with different depths, int and float values; snap / lc / average; rejections" % n,
-                evals, len(distinct), "result compared pointwise (all breakpoints and midpoints, all depths, missing depth = 0); operands compared before/after every operation; aliasing of result and operand buffers",
+                evals, len(distinct), "result compared pointwise (all breakpoints and midpoints, all depths, missing depth = 0); operands compared before/after every operation and results of repeated calls compared",
                 samples=[{"a": [[0, 0], [1, 1], [2, 0]], "b": [[1, 0], [2, 2], [3, 0]]}])
 
 
